@@ -121,6 +121,19 @@ type c19Pair struct{ A, B []byte }
 
 func genVersionSet(t *rapid.T, label string) []byte {
 	n := rapid.IntRange(1, 6).Draw(t, label+"n")
+	if rapid.IntRange(0, 5).Draw(t, label+"long") == 0 {
+		// a long list whose only supported versions come late ("any two nodes advertising version sets")
+		n = rapid.IntRange(9, 14).Draw(t, label+"nlong")
+		out := make([]byte, n)
+		for i := range out {
+			out[i] = byte(20 + i)
+		}
+		out[n-1] = rapid.ByteRange(0, 1).Draw(t, label+"last")
+		if rapid.Bool().Draw(t, label+"both") {
+			out[n-2] = 1 - out[n-1]
+		}
+		return out
+	}
 	small := rapid.Bool().Draw(t, label+"small")
 	out := make([]byte, n)
 	for i := range out {
